@@ -8,6 +8,7 @@ import (
 	"fmt"
 	"sort"
 	"strings"
+	"sync/atomic"
 	"time"
 
 	"github.com/samber/ro"
@@ -43,10 +44,10 @@ type StageSpec struct {
 
 // FaultSpec is one injected fault.
 type FaultSpec struct {
-	Kind string `json:"kind"`          // family specific
+	Kind string `json:"kind"`           // family specific
 	Site string `json:"site,omitempty"` // callback site (C07)
-	Pos  int    `json:"pos,omitempty"` // callback position / step index
-	Inv  int    `json:"inv,omitempty"` // invocation index
+	Pos  int    `json:"pos,omitempty"`  // callback position / step index
+	Inv  int    `json:"inv,omitempty"`  // invocation index
 	Arg  int    `json:"arg,omitempty"`
 }
 
@@ -126,7 +127,7 @@ type Env struct {
 	Dropped   []string
 	Unhandled []string
 
-	Probes map[string]int // reach probes ("this rare condition was hit")
+	Probes map[string]int    // reach probes ("this rare condition was hit")
 	Out    map[string]string // family-specific results of the run (used by ExpandRun)
 
 	calls              map[string]int
@@ -399,12 +400,14 @@ type Src struct {
 	SubAt            []int
 	EmitAfterRelease int
 	DoubleTeardown   int
+	MaxLiveStrict    int // like MaxLive, not counting subscriptions whose own terminal call is in progress
 	NilCtx           int
 	Ctxs             []context.Context
 	Done             int // producers that finished their script
 	// per subscription
-	subs   []*srcSub
-	manual []manualSub
+	subs      []*srcSub
+	manual    []manualSub
+	manualPub uint32
 	// multi-attempt: script for the n-th subscription (overrides Spec.Script)
 	Attempts [][]Step
 	// hot: the subject
@@ -434,12 +437,16 @@ type manualSub struct {
 // Push delivers one notification to every live subscription of a manual source (on the caller's actor).
 // It reports how many subscriptions received it.
 func (s *Src) Push(st Step) int {
+	atomic.LoadUint32(&s.manualPub)
 	n := 0
 	for _, m := range s.manual {
 		if m.sub.released {
 			continue
 		}
 		n++
+		if st.K != "N" {
+			m.sub.terminating = true
+		}
 		s.emit(m.dest, m.ctx, 0, st)
 	}
 	if n == 0 {
@@ -449,9 +456,10 @@ func (s *Src) Push(st Step) int {
 }
 
 type srcSub struct {
-	released  bool
-	relStep   int
-	teardowns int
+	terminating bool // the producer's own terminal call is in progress (the subscription is ending)
+	released    bool
+	relStep     int
+	teardowns   int
 }
 
 func (e *Env) NewSrc(spec SrcSpec) *Src {
@@ -503,6 +511,9 @@ func (s *Src) play(dest ro.Observer[int], ctx context.Context, sub *srcSub, prod
 		if s.Spec.Producers > 1 && st.K == "N" {
 			st.V += 1000 * prod // values stay attributable to one producer call
 		}
+		if st.K != "N" {
+			sub.terminating = true
+		}
 		s.emit(dest, ctx, prod, st)
 	}
 }
@@ -533,6 +544,15 @@ func (s *Src) Obs() ro.Observable[int] {
 			s.MaxLive = s.Live
 		}
 		s.SubAt = append(s.SubAt, s.env.Step())
+		strict := 1
+		for _, old := range s.subs {
+			if !old.released && !old.terminating {
+				strict++
+			}
+		}
+		if strict > s.MaxLiveStrict {
+			s.MaxLiveStrict = strict
+		}
 		if ctx == nil {
 			s.NilCtx++
 		}
@@ -572,6 +592,7 @@ func (s *Src) Obs() ro.Observable[int] {
 		case "manual":
 			// the scenario pushes notifications explicitly (Src.Push); subscribing plays nothing
 			s.manual = append(s.manual, manualSub{dest: dest, ctx: ctx, sub: sub})
+			atomic.AddUint32(&s.manualPub, 1) // a real hot source publishes its observer list under synchronisation
 		case "never":
 			// subscribes and stays silent
 		case "async", "timed":
